@@ -19,6 +19,8 @@ func checkC20(c *Ctx) {
 	c.Rule("C20-R1", "ViewPort: every store of viewx/viewy (and of limx/limy/width/height in the size setters) is followed by the matching Validate call on every path to the return")
 	c.Rule("C20-R2", "ViewPort.SetContent: parent call only inside the four window tests, coordinates x-viewx+physx / y-viewy+physy; Fill covers [0,width)x[0,height) offset by the origin")
 	c.Rule("C20-R3", "BoxLayout: a method storing cells/orient/view sets changed or calls layout() before returning; Draw lays out under changed; Resize lays out")
+	c.Rule("C20-R6", "every child is placed on every layout pass: in hLayout/vLayout no iteration of the loop over the cells avoids the child's ViewPort.Resize and the widget's Resize (a skipped child keeps a stale rectangle)")
+	c.Expect("C20-R6", 4)
 	c.Rule("C20-R4", "hLayout/vLayout: the remainder loop decrements resid every cycle; resid is zero when the total fill is zero")
 	c.Rule("C20-R5", "ViewPort.Resize clips the extent against the parent measured from the requested origin: width is the argument or (parent width - x), height the argument or (parent height - y)")
 	c.Expect("C20-R5", 2)
@@ -299,6 +301,76 @@ func checkC20(c *Ctx) {
 			}
 		}
 		c.Check(ok, "C20-R3", "layout:clears-changed", p.pos(l.Pos()), "layout() clears the flag after laying out")
+	}
+	// ---- R6: every child is placed on every layout pass.  In the loop that hands each cell its
+	// rectangle, no cycle avoids the ViewPort.Resize call (and the widget's Resize after it): a child that is
+	// skipped "because it has no extent" keeps the rectangle of an earlier pass, which then overlaps its
+	// siblings or lies outside the layout's view.
+	for _, name := range []string{"hLayout", "vLayout"} {
+		fn := bl[name]
+		if fn == nil {
+			c.Undecided("C20-R6", name, "-", "not found")
+			continue
+		}
+		for _, what := range []string{"ViewPort).Resize", "Widget).Resize"} {
+			var site ssa.Instruction
+			eachInstr(fn, func(in ssa.Instruction) {
+				cc := callCommon(in)
+				if cc == nil {
+					return
+				}
+				n := calleeName(cc)
+				if cc.IsInvoke() {
+					n = typeName(cc.Value.Type()) + ")." + cc.Method.Name()
+				}
+				if strings.HasSuffix(n, what) {
+					site = in
+				}
+			})
+			key := name + ":every-child-placed:" + strings.TrimSuffix(strings.Replace(what, ").", ".", 1), ")")
+			if site == nil {
+				c.Fail("C20-R6", key, p.pos(fn.Pos()), "no call of "+what+" in the placement loop")
+				continue
+			}
+			var header *ssa.BasicBlock
+			var body map[*ssa.BasicBlock]bool
+			for h, b := range loopsOf(fn) {
+				if b[site.Block()] && (body == nil || len(b) < len(body)) {
+					header, body = h, b
+				}
+			}
+			if header == nil {
+				c.Fail("C20-R6", key, p.pos(site.Pos()), "the call is not inside a loop over the cells")
+				continue
+			}
+			// is there a cycle header -> ... -> header inside the loop that avoids the call's block?
+			avoid := false
+			seen := map[*ssa.BasicBlock]bool{}
+			stack := []*ssa.BasicBlock{}
+			for _, s := range header.Succs {
+				if body[s] && s != site.Block() {
+					stack = append(stack, s)
+				}
+			}
+			for len(stack) > 0 {
+				b := stack[len(stack)-1]
+				stack = stack[:len(stack)-1]
+				if b == header {
+					avoid = true
+					break
+				}
+				if seen[b] {
+					continue
+				}
+				seen[b] = true
+				for _, s := range b.Succs {
+					if body[s] && s != site.Block() {
+						stack = append(stack, s)
+					}
+				}
+			}
+			c.Check(!avoid, "C20-R6", key, p.pos(site.Pos()), "every iteration over the cells passes the call")
+		}
 	}
 	// ---- R4
 	for _, name := range []string{"hLayout", "vLayout"} {
